@@ -1,6 +1,20 @@
 /-
   C07 — Every wrapper stack and transform is lossless for every payload.
   Property theorems only; models in XMT/{Wrap,Cbk,Dns}.lean, lemmas in XMT/{Wrap,Cbk}Lemmas.lean.
+
+  Scope notes (from an adversarial review of these statements, see DESIGN.md Appendix B.5):
+  * hex, base64, zlib, gzip and the AES block function are PARAMETERS: `stack_roundtrip` and
+    `sendrecv` take their round-trip laws (`LGood`) as hypotheses; only the XOR/CFB layer, the CBK
+    layer, the Base64-shift arithmetic and the DNS framing are proved here. The real codecs are
+    exercised by the direct oracles on every run.
+  * `Layer.dec` is whole-stream: "however the reads are chunked" is proved for CBK
+    (`cbk_stream_chunked`) and holds for CFB byte by byte; for the parameter layers it is part of the
+    assumed law.
+  * `sendrecv` / `sendrecv_nowrap` are composition theorems; their hypotheses are discharged by C01
+    (codec), `dns_roundtrip`, `b64shift_roundtrip`, `cbk_stream`, `xor_lossless` - the instantiation is
+    not spelled out as one closed corollary.
+  * `cbk_block` / `cbk_shuffle_inverse` also cover `A = 0`, where Go's `i % e.A` would divide by zero:
+    unreachable through `newSource` (forces `A` non-zero), see DESIGN B.4.
 -/
 import XMT.WrapLemmas
 import XMT.CbkLemmas
